@@ -1,2 +1,31 @@
-(* C07 - statements only (proofs pending). *)
-From N2 Require Import Model.All.
+(* C07 - every byte prefix of every build log (src/db.rs): statements only; proofs in Proofs/Db*.v *)
+From N2 Require Import Model.All Proofs.DbSpec.
+From N2 Require Import Proofs.DbCodec Proofs.DbWriter Proofs.DbReader Proofs.DbMain.
+
+Theorem C07_prefix_opens : forall producer ws log k, Forall in_bounds ws -> table_small ws -> log_of ws = Ok log -> exists st f, db_open true producer (firstn k log) = OpenOk st f /\ is_prefix f log /\ (length f <= Nat.max k 8)%nat /\ db_open true producer f = OpenOk st f.
+Proof. exact db_prefix_opens. Qed.
+Print Assumptions C07_prefix_opens.
+
+Theorem C07_survivors_are_written_records : forall producer ws log k st f, Forall in_bounds ws -> table_small ws -> log_of ws = Ok log -> db_open true producer (firstn k log) = OpenOk st f -> forall b deps h, loaded_for st b = Some (deps, h) -> exists w, In w ws /\ w_deps w = deps /\ w_hash w = h /\ applicable producer w b = true.
+Proof. exact db_survivors_are_written_records. Qed.
+Print Assumptions C07_survivors_are_written_records.
+
+Theorem C07_whole_records_survive : forall producer ws1 ws2 log1 log k, Forall in_bounds (ws1 ++ ws2) -> table_small (ws1 ++ ws2) -> log_of ws1 = Ok log1 -> log_of (ws1 ++ ws2) = Ok log -> (length log1 <= k)%nat -> exists st f, db_open true producer (firstn k log) = OpenOk st f /\ is_prefix log1 f /\ forall b, last_applicable producer ws1 b None <> None -> loaded_for st b <> None.
+Proof. exact db_whole_records_survive. Qed.
+Print Assumptions C07_whole_records_survive.
+
+Theorem C07_append_after_recovery : forall producer ws log k st f w bytes tbl', Forall in_bounds ws -> table_small ws -> log_of ws = Ok log -> db_open true producer (firstn k log) = OpenOk st f -> in_bounds w -> (N.of_nat (length (ld_tbl st) + length (w_outs w) + length (w_deps w)) < 16777216)%N -> write_build (ld_tbl st) (w_outs w) (w_deps w) (w_hash w) = Ok (bytes, tbl') -> exists st', db_open true producer (f ++ bytes) = OpenOk st' (f ++ bytes) /\ ld_tbl st' = tbl' /\ forall b, applicable producer w b = true -> loaded_for st' b = Some (w_deps w, w_hash w).
+Proof. exact db_append_after_recovery. Qed.
+Print Assumptions C07_append_after_recovery.
+
+Theorem C07_append_after_recovery_exact : forall producer ws log k st f w bytes tbl', Forall in_bounds ws -> table_small ws -> log_of ws = Ok log -> db_open true producer (firstn k log) = OpenOk st f -> in_bounds w -> (N.of_nat (length (ld_tbl st) + length (w_outs w) + length (w_deps w)) < 16777216)%N -> write_build (ld_tbl st) (w_outs w) (w_deps w) (w_hash w) = Ok (bytes, tbl') -> exists st', db_open true producer (f ++ bytes) = OpenOk st' (f ++ bytes) /\ ld_tbl st' = tbl' /\ forall b, loaded_for st' b = if applicable producer w b then Some (w_deps w, w_hash w) else loaded_for st b.
+Proof. exact db_append_after_recovery_exact. Qed.
+Print Assumptions C07_append_after_recovery_exact.
+
+Theorem C07_append_total : forall producer ws log k st f w, Forall in_bounds ws -> table_small ws -> log_of ws = Ok log -> db_open true producer (firstn k log) = OpenOk st f -> in_bounds w -> (N.of_nat (length (ld_tbl st) + length (w_outs w) + length (w_deps w)) < 16777216)%N -> exists bytes tbl', write_build (ld_tbl st) (w_outs w) (w_deps w) (w_hash w) = Ok (bytes, tbl').
+Proof. exact db_append_total. Qed.
+Print Assumptions C07_append_total.
+
+Theorem C07_pinned_refuted : exists producer ws log k, log_of ws = Ok log /\ (exists m, db_open false producer (firstn k log) = OpenErr m).
+Proof. exact db_pinned_refuted. Qed.
+Print Assumptions C07_pinned_refuted.
